@@ -29,6 +29,7 @@ fn streams(t: Tier) -> Vec<StreamDef> {
         st("msg", t.n(8_000, 300_000, 20, 2_000), false),
         st("msg_limit", t.n(96, 1600, 1, 32), false),
         st("hide_limit", t.n(4_000, 200_000, 20, 1_000), false),
+        st("colossal_value", t.n(4, 8, 0, 0), true),
     ]
 }
 
@@ -164,6 +165,37 @@ fn run(ctx: &mut Ctx) {
             ctx.rep.case(format!("{}:{}:{}", VAR_ATTRS[k], n, ctx.idx / (16 * 41)).as_bytes(), true);
             check_avp(ctx, &a, &ca, n + 6 > 1023);
             ctx.rep.sample(|| J::obj(vec![("attribute_type", J::U(a.attr as u64)), ("hidden", J::B(a.hidden)), ("payload_octets", J::U(n as u64)), ("oversize", J::B(n + 6 > 1023))]));
+        }
+        "colossal_value" => {
+            // one AVP whose value is larger than 2^32 octets (untouched zero pages; a writer that
+            // only counts): its size does not fit any narrower integer, and it must be refused -
+            // or, if the encoder returns, the length field must describe what was emitted
+            if ctx.build != "rel" {
+                return;
+            }
+            const SIZES: [usize; 8] = [(1 << 32) + 2, (1 << 32) + 1017, (1 << 32) + 1018, (1 << 32) - 6 + 7, (1 << 31) + 5, (1 << 32) + 0, (2 << 32) + 10, (1 << 32) + 600];
+            let n = SIZES[(ctx.idx % 8) as usize];
+            ctx.rep.case(format!("colossal:{}", n).as_bytes(), true);
+            ctx.rep.bucket("colossal_value.cases");
+            let out = crate::monitor::panic::catch(|| {
+                use rl2tp::avp::types as t;
+                let a = AVP::HostName(t::HostName { value: vec![0u8; n] });
+                let mut w = crate::monitor::writer::NullWriter::default();
+                a.write(&mut w);
+                (w.len, w.head.clone())
+            });
+            match out {
+                crate::monitor::panic::Ended::Panicked(_) => ctx.rep.bucket("colossal_value.refused"),
+                crate::monitor::panic::Ended::Returned((len, head)) => {
+                    let field = if head.len() >= 2 { (((head[0] as usize) << 8) | head[1] as usize) & 0x3ff } else { 0 };
+                    ctx.violate(
+                        "C07:avp:oversize-accepted:beyond-4GiB",
+                        format!("a Host Name AVP with a value of {} octets was emitted ({} octets written) with a length field of {}", n, len, field),
+                        J::obj(vec![("value_octets", J::U(n as u64)), ("emitted", J::U(len as u64)), ("encoded_head_hex", J::hex(&head[..head.len().min(16)]))]),
+                    );
+                }
+                _ => unreachable!(),
+            }
         }
         "msg" => {
             let (max_avps, maxp) = if ctx.rng.chance(1, 10) { (70, 1017) } else { (10, 80) };
